@@ -1,4 +1,4 @@
 Require Import Verif.PA.PAModel.
 Require Extraction ExtrOcamlBasic.
 Extraction Language OCaml.
-Extraction "pa_model.ml" init step all_done outcome dtor quiescent binit brun bdtor boutcome threads err berr.
+Extraction "pa_model.ml" init step all_done outcome dtor quiescent binit brun bdtor boutcome threads err berr cinit crun.
